@@ -33,6 +33,8 @@ type round struct {
 	commits  []commitRec                    // every commit in order (rolled-back ones included)
 
 	firstMissing string
+	baseBroken   bool // an earlier request could not be served from an intact main DB: the snapshot DB contents that
+	// later checkpoints build on are not trustworthy until the next verified snapshot
 
 	ops     []string
 	blocked int32 // set by the recorder callbacks: prune requests seen while pruning was blocked (window evidence)
@@ -309,6 +311,13 @@ func (ro *round) window(profile string) {
 		return
 	}
 	if !verifiable {
+		ro.baseBroken = true
+		ro.executed = append(ro.executed, request{kind, string(model.Root), len(ro.commits)})
+		return
+	}
+	if ro.baseBroken && kind == "checkpoint" {
+		// the checkpoint adds to a snapshot DB whose base was taken from a main DB that had already lost nodes
+		r.Count("requests_not_verified_base_snapshot_taken_from_broken_main_db", 1)
 		ro.executed = append(ro.executed, request{kind, string(model.Root), len(ro.commits)})
 		return
 	}
@@ -323,6 +332,9 @@ func (ro *round) window(profile string) {
 	key, what, extra := ro.verify(kind, model)
 	ro.executed = append(ro.executed, request{kind, string(model.Root), len(ro.commits)})
 	if key == "" {
+		if kind == "snapshot" {
+			ro.baseBroken = false
+		}
 		if r.NeedSample() && ro.c.Idx < 3 && overlapped > 0 {
 			n := len(ro.ops)
 			lo := n - (k + 1)
@@ -352,11 +364,12 @@ func (ro *round) verify(kind string, model *cm.Block) (string, string, map[strin
 	if ro.env.Cfg.SnapshotDB.Type == "LvlDBSerial" {
 		// SerialDB.putBatch swaps its write batch before the old batch reaches leveldb: a Get can fall between
 		// the two for a moment. Stored data is persistent, so a genuine hole stays a hole on re-reading.
-		attempts = 4
+		// Re-reading is bounded by 1 s.
+		attempts = 10
 	}
 	for attempt := 0; attempt < attempts; attempt++ {
 		if attempt > 0 {
-			time.Sleep(30 * time.Millisecond)
+			time.Sleep(100 * time.Millisecond)
 			r.Count("verification_retries", 1)
 		}
 		fail, missingRoot = nil, false
@@ -381,6 +394,16 @@ func (ro *round) verify(kind string, model *cm.Block) (string, string, map[strin
 	extra["error"] = fail.Error()
 	extra["missing_nodes"] = nMissing
 	if ro.firstMissing != "" {
+		// diagnostics: does any (other) snapshot DB hold the missing node?
+		if rootDb := ro.env.Tsm.GetSnapshotThatContainsHash(model.Root); rootDb != nil {
+			if nodeDb := ro.env.Tsm.GetSnapshotThatContainsHash([]byte(ro.firstMissing)); nodeDb != nil {
+				extra["missing_node_found_in_another_snapshot_db"] = nodeDb != rootDb
+				nodeDb.DecreaseNumReferences()
+			} else {
+				extra["missing_node_found_in_another_snapshot_db"] = false
+			}
+			rootDb.DecreaseNumReferences()
+		}
 		extra["a_missing_node"] = vk.Hex([]byte(ro.firstMissing))
 		extra["a_missing_node_history"] = ro.nodeHistory(ro.firstMissing)
 	}
@@ -545,15 +568,14 @@ func runRound(r *vk.Run, c *vk.Case, scratch string) {
 }
 
 func main() {
-	cm.RaceExitGuard()
 	_ = logger.SetLogLevel("*:NONE")
 	r := vk.Start("C10")
 	r.Rule("each case is one round: a chain over 6 accounts + counter account (storage, code, removals) with 12 request windows. A window takes the block that becomes final next, issues exactly one request for its root the way the block processors do (explicit SnapshotState before updateStateStorage, or the checkpoint that updateStateStorage itself fires when height % CheckpointRoundsModulus == 0), then a mutator goroutine runs 0-5 further chain steps (commit / finalize with prune requests / rollback above the final block) concurrently with the snapshot goroutines, whose main-DB reads are held on logical tokens released per step (2/3 of the rounds) or slowed (1/3); then the harness waits for IsPruningBlocked()==false and verifies. One request outstanding at a time, final roots only, SnapshotsBufferLen 10000, MaxSnapshots 2-3. Round types by case index mod 4: mixed (snapshots + modulus checkpoints) / snapshots only / checkpoints only (modulus 1, no rotation) / mixed with monotone state (no node-hash revisit: unique slot values, no removals, code fixed after block 0) - only the first type can contain the known checkpoint shape. Two extra fixed cases replay the minimal sequential witnesses of that shape. A window is non-trivial when the state has at least one data trie; distinct = distinct (kind, gate, steps, overlapped, rollback-in-window, prunes-buffered-in-window, #data tries, queue size) tuples.")
 	r.Assume(
 		"requests never overlap and are issued only for roots of blocks that have just become final (DESIGN C10 restrictions); overlapping requests are outside the property",
-		"a request whose root is already incomplete in the main DB at request time is not verified (pruning defects are C09's subject) and only counted",
+		"a request whose root is already incomplete in the main DB at request time is not verified (pruning defects are C09's subject) and only counted; neither are the checkpoints that build on such a request, until the next verified snapshot",
 		"traversal 'using only that DB': a fresh trie over trieStorageManagerWithoutPruning(snapshot DB)",
-		"with LvlDBSerial snapshot DBs only, verification reads are retried up to 3 times 30 ms apart (SerialDB swaps its write batch before flushing it; stored data is persistent, a real hole stays a hole); no retry with MemoryDB",
+		"with LvlDBSerial snapshot DBs only, verification reads are retried for up to 1 s (100 ms apart) (SerialDB swaps its write batch before flushing it; stored data is persistent, a real hole stays a hole); no retry with MemoryDB",
 		"waiting is bounded by logical steps; the 300 s wall-clock watchdogs only ever yield INCONCLUSIVE",
 	)
 	r.MinShapes(20)
@@ -577,10 +599,10 @@ func main() {
 		r.Extra("race_reports", races)
 	}
 	r.Extra("rounds", n)
-	if r.Counter("requests_snapshot")+r.Counter("requests_checkpoint") < int64(n)*6 {
+	if r.ReplayCase < 0 && r.Counter("requests_snapshot")+r.Counter("requests_checkpoint") < int64(n)*6 {
 		r.Inconclusive("fewer than half of the planned requests were verified")
 	}
-	if r.Counter("window_steps_while_snapshot_in_progress") == 0 {
+	if r.ReplayCase < 0 && r.Counter("window_steps_while_snapshot_in_progress") == 0 {
 		r.Inconclusive("no chain step ever overlapped a snapshot in progress")
 	}
 	r.Finish()
